@@ -214,7 +214,7 @@ def guard_facts(ctx, body, site_bi, facts, before_site_stmts=False):
                         continue
                     for st in body.blocks[rb]["stmts"]:
                         if st["k"] == "assign" and st["place"]["p"]:
-                            if norm_atom(sy.place(st["place"])) in mem_atoms:
+                            if norm_atom(sy.dest(st["place"])) in mem_atoms:
                                 stable = False
         if not stable:
             continue
